@@ -239,6 +239,12 @@ Proof.
     destruct x as [rc0 us lk ik fr qu ch en re ca fd ho]. kcrush.
     destruct fd; cbn; try discriminate.
     destruct qu as [|qu]; cbn; kbools; ksolve.
+  - (* EPollEvent *)
+    eapply with_key_inv; eauto. intros x y Hx.
+    destruct x as [rc0 us lk ik fr qu ch en re ca fd ho]. kcrush. kbools; cbn; ksolve.
+  - (* EPollArm *)
+    eapply with_key_inv; eauto. intros x y Hx.
+    destruct x as [rc0 us lk ik fr qu ch en re ca fd ho]. kcrush. kbools; cbn; ksolve.
   - (* EUserPop *)
     eapply with_key_inv; eauto. intros x y Hx.
     destruct x as [rc0 us lk ik fr qu ch en re ca fd ho]. kcrush.
@@ -374,14 +380,15 @@ Qed.
 Definition touches (e : ev) (k : nat) : Prop :=
   e = ECqeMore k \/ e = ECqeFinal k \/ e = ESetResult k \/ e = ESubmit k \/
   (exists ok, e = ECancelPush k ok) \/ e = EBlockingDispatch k \/
-  e = EBlockingStart k \/ e = EPollQueue k \/ e = EPollCancel k \/ e = EDropDrain k.
+  e = EBlockingStart k \/ e = EPollQueue k \/ e = EPollCancel k \/ e = EDropDrain k \/
+  e = EPollEvent k \/ e = EPollArm k.
 
 Theorem no_use_after_free s e k x :
   touches e k -> nth_error (keys s) k = Some x -> freed x = true -> step s e = None.
 Proof.
   intros Ht Hk Hf. unfold step.
   destruct (strict_ev e && any_needs_free (if user_ev e then settle_all s else s)); [reflexivity|].
-  destruct Ht as [->|[->|[->|[->|[[ok ->]|[->|[->|[->|[->| ->]]]]]]]]];
+  destruct Ht as [->|[->|[->|[->|[[ok ->]|[->|[->|[->|[->|[->|[->| ->]]]]]]]]]]];
     cbn [user_ev]; unfold with_key, touch, live; rewrite ?Hk, ?Hf; cbn [negb andb orb];
     try reflexivity.
   - destruct (negb (dropping s && ring_open s)); reflexivity.
